@@ -5,7 +5,7 @@ CONSTANT NPairs = 2
 CONSTANT MaxOps = 4
 CONSTANT Full = TRUE
 CONSTANT EmitOneIn = 1
-CONSTANT Kinds = {"visit", "cached", "novisit", "plain", "bytes", "bytes_br", "enc"}
+CONSTANT Kinds = {"visit", "cached", "insert", "novisit", "plain", "bytes", "bytes_br", "enc"}
 INVARIANT TableOK
 INVARIANT SlotsCorrect
 INVARIANT CacheShape
